@@ -203,7 +203,7 @@ func c17AllBlocked(stacks string) bool {
 		case strings.HasPrefix(state, "chan receive"), strings.HasPrefix(state, "chan send"),
 			strings.HasPrefix(state, "sync.Mutex.Lock"), strings.HasPrefix(state, "semacquire"),
 			strings.HasPrefix(state, "sync.RWMutex"), strings.HasPrefix(state, "sync.Cond.Wait"),
-			strings.HasPrefix(state, "sync.WaitGroup.Wait"), strings.HasPrefix(state, "select (no cases)"):
+			strings.HasPrefix(state, "sync.WaitGroup.Wait"), strings.HasPrefix(state, "select"):
 		default:
 			return false
 		}
@@ -215,13 +215,16 @@ func c17AllBlocked(stacks string) bool {
 // program representation (mirrors SlipVerif.Conc.Stmt)
 
 type c17Stmt struct {
-	Kind string    `json:"k"` // push pop incr lock handler fail repeat yield burst
+	Kind string    `json:"k"` // push pop incr lock handler fail repeat yield burst sel sync rangeall close
 	Ch   int       `json:"ch,omitempty"`
 	V    int       `json:"v,omitempty"`
 	K    int       `json:"c,omitempty"`
 	M    int       `json:"m,omitempty"`
 	N    int       `json:"n,omitempty"`
-	Ret  bool      `json:"ret,omitempty"` // lock: leave the section through (return-from)
+	Ret  bool      `json:"ret,omitempty"`  // lock: leave the section through (return-from)
+	Chs  []int     `json:"chs,omitempty"`  // sel: the channels of the select, in clause order
+	Tpos []int     `json:"tpos,omitempty"` // sel: clause positions (0 = first) of time-channel clauses
+	Shrt bool      `json:"shrt,omitempty"` // sel: the time channels fire (1 ms): the select is retried
 	Body []c17Stmt `json:"b,omitempty"`
 }
 
@@ -234,6 +237,9 @@ type c17Prog struct {
 	NMutex   int         `json:"nmutex"`   //
 	Routines [][]c17Stmt `json:"routines"` // started with (run ...)
 	Main     []c17Stmt   `json:"main"`     // executed by the main thread itself (thread id = len(Routines))
+	Spawn    string      `json:"spawn"`    // how routines are started: "" nested method clos defun closure
+	NoModel  bool        `json:"nomodel"`  // the shape has no model run (channel-close / range)
+	Defens   bool        `json:"defens"`   // bursts re-enable synchronization of the instance on every iteration
 	Burst    bool        `json:"burst"`    // sweep cell: untraced bursts of guarded increments (no model run, no read log)
 	Shared   bool        `json:"shared"`   // sweep cell: all routines are started from one (run ...) form in a loop
 	Defun    bool        `json:"defun"`    // sweep cell: routines call one shared defun (first call concurrent)
@@ -246,7 +252,7 @@ func c17Expand(ss []c17Stmt) []c17Stmt {
 	var out []c17Stmt
 	for _, s := range ss {
 		switch s.Kind {
-		case "yield":
+		case "yield", "sync":
 		case "burst":
 			// N untraced guarded increments of counter K
 			for i := 0; i < s.N; i++ {
@@ -292,6 +298,12 @@ func c17Tokens(ss []c17Stmt) []string {
 			out = append(out, fmt.Sprintf("P%d.%d", s.Ch, s.V))
 		case "pop":
 			out = append(out, fmt.Sprintf("O%d", s.Ch))
+		case "sel":
+			cs := make([]string, len(s.Chs))
+			for i, c := range s.Chs {
+				cs[i] = strconv.Itoa(c)
+			}
+			out = append(out, "S"+strings.Join(cs, "+"))
 		case "incr":
 			out = append(out, fmt.Sprintf("I%d", s.K))
 		case "fail":
@@ -380,9 +392,20 @@ func (p *c17Prog) readExpr(k int) string {
 		return fmt.Sprintf("(slot-value *co* 'c%d)", k)
 	case "hash":
 		return fmt.Sprintf("(gethash 'c%d *ht*)", k)
+	case "ivar":
+		// instance variable of the flavor instance whose methods start the routines
+		return fmt.Sprintf("c%d", k)
 	default: // let
 		return fmt.Sprintf("c%d", k)
 	}
+}
+
+// the instance whose slot holds counter k (only for fslot / cslot counters)
+func (p *c17Prog) instanceOf(k int) string {
+	if p.Kinds[k] == "cslot" {
+		return "*co*"
+	}
+	return "*fo*"
 }
 
 func (p *c17Prog) writeExpr(k int, x string) string {
@@ -417,12 +440,57 @@ func (p *c17Prog) render(b *strings.Builder, r int, ss []c17Stmt, held []int, lo
 			fmt.Fprintf(b, " (let ((v %s)) (vtrace 'rd %d %d v) (vyield) %s)", p.readExpr(s.K), r, s.K, p.writeExpr(s.K, "(1+ v)"))
 		case "yield":
 			b.WriteString(" (vyield)")
+		case "sync":
+			// defensive (re-)enabling of the synchronized mode of the instance holding counter K
+			fmt.Fprintf(b, " (set-synchronized %s t)", p.instanceOf(s.K))
+		case "close":
+			fmt.Fprintf(b, " (channel-close *ch%d*)", s.Ch)
+		case "rangeall":
+			fmt.Fprintf(b, " (range (lambda (v) (vtrace 'rv %d %d v)) *ch%d*)", r, s.Ch, s.Ch)
+		case "sel":
+			// one receive through select; clause order: channel clauses in Chs order with the
+			// time-channel clauses at the positions Tpos
+			var clauses []string
+			ci, ti := 0, 0
+			for pos := 0; pos < len(s.Chs)+len(s.Tpos); pos++ {
+				isT := false
+				for _, tp := range s.Tpos {
+					if tp == pos {
+						isT = true
+					}
+				}
+				if isT || ci >= len(s.Chs) {
+					if s.Shrt {
+						clauses = append(clauses, fmt.Sprintf("((time-after 0.001) tv (vtrace 'to %d))", r))
+					} else {
+						clauses = append(clauses, fmt.Sprintf("(*to%d* tv (vtrace 'to %d))", ti%4, r))
+					}
+					ti++
+					continue
+				}
+				got := ""
+				if s.Shrt {
+					got = " (setq g 1)"
+				}
+				clauses = append(clauses, fmt.Sprintf("(*ch%d* v (vtrace 'rv %d %d v)%s)", s.Chs[ci], r, s.Chs[ci], got))
+				ci++
+			}
+			if s.Shrt {
+				// (a bare symbol as the end test of do never ends in slip: compare explicitly)
+				fmt.Fprintf(b, " (let ((g 0)) (do () ((> g 0)) (select %s)))", strings.Join(clauses, " "))
+			} else {
+				fmt.Fprintf(b, " (select %s)", strings.Join(clauses, " "))
+			}
 		case "burst":
+			def := ""
+			if p.Defens && (p.Kinds[s.K] == "fslot" || p.Kinds[s.K] == "cslot") {
+				def = fmt.Sprintf(" (set-synchronized %s t)", p.instanceOf(s.K))
+			}
 			if p.Family == "sync" {
 				// single writer: no mutex
-				fmt.Fprintf(b, " (dotimes (i%d %d) %s)", depth, s.N, p.writeExpr(s.K, "(1+ "+p.readExpr(s.K)+")"))
+				fmt.Fprintf(b, " (dotimes (i%d %d)%s %s)", depth, s.N, def, p.writeExpr(s.K, "(1+ "+p.readExpr(s.K)+")"))
 			} else {
-				fmt.Fprintf(b, " (dotimes (i%d %d) (with-mutex-lock *m%d* %s))", depth, s.N, p.Guards[s.K], p.writeExpr(s.K, "(1+ "+p.readExpr(s.K)+")"))
+				fmt.Fprintf(b, " (dotimes (i%d %d)%s (with-mutex-lock *m%d* %s))", depth, s.N, def, p.Guards[s.K], p.writeExpr(s.K, "(1+ "+p.readExpr(s.K)+")"))
 			}
 		case "fail":
 			for i := len(held) - 1; i >= 0; i-- {
@@ -462,6 +530,23 @@ func c17EndsFailed(ss []c17Stmt) bool {
 	return c17Walk(c17Expand(ss), func(c17Stmt) {})
 }
 
+func (p *c17Prog) usesLongTimers() bool {
+	found := false
+	var walk func(ss []c17Stmt)
+	walk = func(ss []c17Stmt) {
+		for _, s := range ss {
+			if s.Kind == "sel" && len(s.Tpos) > 0 && !s.Shrt {
+				found = true
+			}
+			walk(s.Body)
+		}
+	}
+	for _, t := range p.threads() {
+		walk(t)
+	}
+	return found
+}
+
 // source renders the whole program. sequential=true replaces (run X) by X (tables family only).
 func (p *c17Prog) source(sequential bool) string {
 	var b strings.Builder
@@ -475,6 +560,10 @@ func (p *c17Prog) source(sequential bool) string {
 	}
 	for i := 0; i < p.NMutex; i++ {
 		fmt.Fprintf(&b, "(defvar *m%d* (make-mutex))\n", i)
+	}
+	if p.usesLongTimers() {
+		// time channels that never fire during a run
+		b.WriteString("(defvar *to0* (time-after 3600))\n(defvar *to1* (time-after 7200))\n(defvar *to2* (time-after 5400))\n(defvar *to3* (time-after 9000))\n")
 	}
 	var fs, cs, ls []string
 	hash := false
@@ -507,6 +596,18 @@ func (p *c17Prog) source(sequential bool) string {
 		}
 	}
 	b.WriteString(p.Prelude)
+	switch p.Spawn {
+	case "method":
+		var iv []string
+		for k, kind := range p.Kinds {
+			if kind == "ivar" {
+				iv = append(iv, fmt.Sprintf("(c%d 0)", k))
+			}
+		}
+		fmt.Fprintf(&b, "(defflavor c17sp (%s) () :gettable-instance-variables)\n(defvar *sp* (make-instance 'c17sp))\n", strings.Join(iv, " "))
+	case "clos":
+		b.WriteString("(defclass c17spc () ())\n(defvar *spc* (make-instance 'c17spc))\n")
+	}
 	if p.Family == "tables" {
 		for r, forms := range p.Tables {
 			var body strings.Builder
@@ -539,10 +640,53 @@ func (p *c17Prog) source(sequential bool) string {
 		}
 	default:
 		for r, ss := range p.Routines {
-			body.WriteString("(run (progn")
-			p.render(&body, r, ss, nil, "", 0)
-			fmt.Fprintf(&body, " (channel-push *done* %d)))\n", r)
+			var rb strings.Builder
+			rb.WriteString("(run (progn")
+			p.render(&rb, r, ss, nil, "", 0)
+			fmt.Fprintf(&rb, " (channel-push *done* %d)))", r)
+			// how the (run ...) form is reached: the scope run is called in differs (number of
+			// parents, distance to the scope holding the let variables)
+			switch p.Spawn {
+			case "nested":
+				fmt.Fprintf(&body, "(let ((pad%d %d)) (dotimes (q%d 1) (let ((pad2 q%d)) %s)))\n", r, r, r, r, rb.String())
+			case "method":
+				fmt.Fprintf(&b, "(defmethod (c17sp :go%d) () %s)\n", r, rb.String())
+				fmt.Fprintf(&body, "(send *sp* :go%d)\n", r)
+			case "clos":
+				fmt.Fprintf(&b, "(defmethod c17go%d ((o c17spc)) %s)\n", r, rb.String())
+				fmt.Fprintf(&body, "(c17go%d *spc*)\n", r)
+			case "defun":
+				fmt.Fprintf(&b, "(defun c17go%d () %s)\n", r, rb.String())
+				fmt.Fprintf(&body, "(c17go%d)\n", r)
+			case "closure":
+				fmt.Fprintf(&body, "(lambda () %s)\n", rb.String())
+			default:
+				body.WriteString(rb.String() + "\n")
+			}
 		}
+	}
+	if p.Spawn == "closure" {
+		// the let holding the counters returns closures: one starter per routine and a reader;
+		// they are called from outside the let, so the let's scope is reached only through
+		// the closure (second parent of the callee's scope)
+		var rd []string
+		for k := range p.Kinds {
+			rd = append(rd, p.readExpr(k))
+		}
+		fmt.Fprintf(&b, "(defvar *k* (let (%s)\n(list %s(lambda () (list %s)))))\n", strings.Join(ls, " "), body.String(), strings.Join(rd, " "))
+		for r := range p.Routines {
+			fmt.Fprintf(&b, "(funcall (nth %d *k*))\n", r)
+		}
+		fmt.Fprintf(&b, "(dotimes (i %d) (channel-pop *done*))\n", n)
+		fmt.Fprintf(&b, "(let ((fv (funcall (nth %d *k*))))", n)
+		for k := range p.Kinds {
+			fmt.Fprintf(&b, " (vtrace 'fin %d (nth %d fv))", k, k)
+		}
+		b.WriteString(")\n")
+		for i := range p.Caps {
+			fmt.Fprintf(&b, "(vtrace 'len %d (length *ch%d*))\n", i, i)
+		}
+		return b.String()
 	}
 	if len(p.Main) > 0 {
 		body.WriteString("(progn")
@@ -551,6 +695,10 @@ func (p *c17Prog) source(sequential bool) string {
 	}
 	fmt.Fprintf(&body, "(dotimes (i %d) (channel-pop *done*))\n", n)
 	for k := range p.Kinds {
+		if p.Kinds[k] == "ivar" {
+			fmt.Fprintf(&body, "(vtrace 'fin %d (send *sp* :c%d))\n", k, k)
+			continue
+		}
 		fmt.Fprintf(&body, "(vtrace 'fin %d %s)\n", k, p.readExpr(k))
 	}
 	for i := range p.Caps {
@@ -871,6 +1019,108 @@ func c17GenRoundRobin(rng *lib.Rng, maxOps int) *c17Prog {
 	return p
 }
 
+// a select receive over chs with nt time-channel clauses at random positions
+func c17Sel(rng *lib.Rng, chs []int, nt int, short bool) c17Stmt {
+	perm := append([]int{}, chs...)
+	for i := len(perm) - 1; i > 0; i-- {
+		j := rng.Intn(i + 1)
+		perm[i], perm[j] = perm[j], perm[i]
+	}
+	s := c17Stmt{Kind: "sel", Chs: perm, Shrt: short}
+	total := len(perm) + nt
+	used := map[int]bool{}
+	for len(s.Tpos) < nt {
+		pos := rng.Intn(total)
+		if !used[pos] {
+			used[pos] = true
+			s.Tpos = append(s.Tpos, pos)
+		}
+	}
+	sort.Ints(s.Tpos)
+	return s
+}
+
+// family chan, shape select: producers on the channels of a group, consumers that receive through
+// select over the whole group (with time-channel clauses in any position)
+func c17GenSelect(rng *lib.Rng, maxOps int) *c17Prog {
+	p := &c17Prog{Family: "chan", Shape: "select"}
+	ng := 1 + rng.Intn(3)
+	var chs []int
+	for i := 0; i < ng; i++ {
+		chs = append(chs, i)
+		p.Caps = append(p.Caps, c17PickCap(rng))
+	}
+	np := ng + rng.Intn(2)
+	nc := 1 + rng.Intn(3)
+	total := 0
+	for i := 0; i < np; i++ {
+		r := len(p.Routines)
+		cnt := 1 + rng.Intn(maxOps)
+		total += cnt
+		p.Routines = append(p.Routines, []c17Stmt{c17Rep(cnt, c17Push(i%ng, r*1000))})
+	}
+	if total < nc {
+		nc = total
+	}
+	for _, quota := range c17Split(rng, total, nc) {
+		short := rng.Chance(25)
+		if rng.Chance(50) {
+			p.Routines = append(p.Routines, []c17Stmt{c17Rep(quota, c17Sel(rng, chs, rng.Intn(4), short))})
+		} else {
+			// every receive with its own clause order
+			var ss []c17Stmt
+			for i := 0; i < quota; i++ {
+				ss = append(ss, c17Sel(rng, chs, rng.Intn(3), short))
+			}
+			p.Routines = append(p.Routines, ss)
+		}
+	}
+	return p
+}
+
+// family chan, shape range-close: a producer closes its channel when done, consumers range over it
+func c17GenRangeClose(rng *lib.Rng, maxOps int) *c17Prog {
+	p := &c17Prog{Family: "chan", Shape: "range-close", NoModel: true}
+	ng := 1 + rng.Intn(2)
+	for g := 0; g < ng; g++ {
+		p.Caps = append(p.Caps, c17PickCap(rng))
+		r := len(p.Routines)
+		p.Routines = append(p.Routines, []c17Stmt{c17Rep(1+rng.Intn(maxOps), c17Push(g, r*1000)), {Kind: "close", Ch: g}})
+		for c := 0; c < 1+rng.Intn(3); c++ {
+			p.Routines = append(p.Routines, []c17Stmt{{Kind: "rangeall", Ch: g}})
+		}
+	}
+	return p
+}
+
+var c17Spawns = []string{"nested", "method", "clos", "defun", "closure"}
+
+// defensive (set-synchronized inst t) at the start of every routine and between its statements
+func c17Defensive(rng *lib.Rng, p *c17Prog) {
+	inst := -1
+	for k, kind := range p.Kinds {
+		if kind == "fslot" || kind == "cslot" {
+			inst = k
+		}
+	}
+	if inst < 0 {
+		return
+	}
+	for r, ss := range p.Routines {
+		out := []c17Stmt{{Kind: "sync", K: inst}}
+		for _, st := range ss {
+			out = append(out, st)
+			if rng.Chance(30) {
+				k := rng.Intn(len(p.Kinds))
+				if p.Kinds[k] == "fslot" || p.Kinds[k] == "cslot" {
+					out = append(out, c17Stmt{Kind: "sync", K: k})
+				}
+			}
+		}
+		p.Routines[r] = out
+	}
+}
+
 // family mutex: routines hammering guarded counters
 func c17GenMutex(rng *lib.Rng, maxOps int, kinds []string) *c17Prog {
 	p := &c17Prog{Family: "mutex", Shape: "counters"}
@@ -918,6 +1168,26 @@ func c17GenMutex(rng *lib.Rng, maxOps int, kinds []string) *c17Prog {
 		}
 		p.Main = []c17Stmt{c17Rep(1+rng.Intn(maxOps), c17Section(rng, p, rng.Intn(len(p.Kinds)), false))}
 	}
+	if rng.Chance(50) {
+		// routines started from inside methods, functions, nested scopes or closures
+		p.Spawn = c17Spawns[rng.Intn(len(c17Spawns))]
+		if p.Spawn == "closure" {
+			p.Main = nil
+		}
+		if p.Spawn == "method" && rng.Chance(50) {
+			// some counters are instance variables of the (unsynchronized) instance whose methods
+			// start the routines
+			for k, kind := range p.Kinds {
+				if kind != "hash" && rng.Chance(50) {
+					p.Kinds[k] = "ivar"
+					p.Main = nil
+				}
+			}
+		}
+	}
+	if rng.Chance(40) {
+		c17Defensive(rng, p)
+	}
 	return p
 }
 
@@ -933,6 +1203,14 @@ func c17GenSync(rng *lib.Rng, maxOps int) *c17Prog {
 		p.Routines = append(p.Routines, []c17Stmt{c17Rep(1+rng.Intn(maxOps), c17Stmt{Kind: "incr", K: r})})
 	}
 	p.NMutex = 0
+	if rng.Chance(50) && kind != "global" {
+		// every routine (re-)enables synchronization itself, also inside its loop
+		for r := range p.Routines {
+			rp := p.Routines[r][0]
+			rp.Body = append([]c17Stmt{{Kind: "sync", K: r}}, rp.Body...)
+			p.Routines[r] = []c17Stmt{{Kind: "sync", K: r}, rp}
+		}
+	}
 	return p
 }
 
@@ -1315,7 +1593,7 @@ func c17FirstLines(s string, n int) string {
 	return strings.Join(lines, " / ")
 }
 
-var c17BlockedRe = regexp.MustCompile(`(?s)goroutine \d+ \[(sync\.Mutex\.Lock|chan send|chan receive|semacquire)[^\]]*\]:\n(.*?)\n\n`)
+var c17BlockedRe = regexp.MustCompile(`(?s)goroutine \d+ \[(sync\.Mutex\.Lock|chan send|chan receive|semacquire|select)[^\]]*\]:\n(.*?)\n\n`)
 
 // the slip frame of a goroutine blocked in a lock (preferred) or a channel operation
 func c17BlockedFrame(stacks string) string {
@@ -1400,7 +1678,70 @@ func c17Cells() []*c17Case {
 		for r := 0; r < 4; r++ {
 			p.Routines = append(p.Routines, []c17Stmt{{Kind: "burst", N: 30000, K: 0}})
 		}
-		cells = append(cells, &c17Case{Prog: p, Cell: "burst-" + kind, Procs: []int{2, 4, 16, 4, 16}})
+		cells = append(cells, &c17Case{Prog: p, Cell: "burst-" + kind, Procs: []int{4, 16, 4}})
+	}
+	// let-bound counters with the routines started from different kinds of scopes
+	for _, sp := range c17Spawns {
+		p := &c17Prog{Family: "mutex", Shape: "burst", Kinds: []string{"let"}, Guards: []int{0}, NMutex: 1, Burst: true, Spawn: sp}
+		for r := 0; r < 4; r++ {
+			p.Routines = append(p.Routines, []c17Stmt{{Kind: "burst", N: 30000, K: 0}})
+		}
+		cells = append(cells, &c17Case{Prog: p, Cell: "burst-let-" + sp, Procs: []int{4, 16, 4}})
+	}
+	{
+		p := &c17Prog{Family: "mutex", Shape: "burst", Kinds: []string{"ivar"}, Guards: []int{0}, NMutex: 1, Burst: true, Spawn: "method"}
+		for r := 0; r < 4; r++ {
+			p.Routines = append(p.Routines, []c17Stmt{{Kind: "burst", N: 30000, K: 0}})
+		}
+		cells = append(cells, &c17Case{Prog: p, Cell: "burst-ivar-method", Procs: []int{4, 16, 4}})
+	}
+	// every iteration re-enables the synchronized mode of the shared instance
+	for _, kind := range []string{"fslot", "cslot"} {
+		p := &c17Prog{Family: "mutex", Shape: "burst", Kinds: []string{kind}, Guards: []int{0}, NMutex: 1, Burst: true, Defens: true}
+		q := &c17Prog{Family: "sync", Shape: "own-slot-burst", Kinds: []string{kind, kind, kind, kind}, Guards: []int{0, 1, 2, 3}, Burst: true, Defens: true}
+		for r := 0; r < 4; r++ {
+			p.Routines = append(p.Routines, []c17Stmt{{Kind: "burst", N: 20000, K: 0}})
+			q.Routines = append(q.Routines, []c17Stmt{{Kind: "burst", N: 20000, K: r}})
+		}
+		cells = append(cells, &c17Case{Prog: p, Cell: "burst-" + kind + "-defensive", Procs: []int{4, 16}})
+		cells = append(cells, &c17Case{Prog: q, Cell: "burst-own-" + kind + "-defensive", Procs: []int{4, 16}})
+	}
+	// select: every position of the time-channel clauses relative to the channel clauses
+	// (three time channels or nine channels take select's general path)
+	for _, pat := range []string{"cc", "tcc", "ctc", "cct", "tctc", "tc", "ct", "ttc", "Tcc", "cTc", "ccT", "tctct", "tttc", "ccccccccc", "tccccccccc"} {
+		p := &c17Prog{Family: "chan", Shape: "select", Caps: []int{2, 0}}
+		sel := c17Stmt{Kind: "sel"}
+		ch := 0
+		for i, c := range pat {
+			switch c {
+			case 'c':
+				sel.Chs = append(sel.Chs, ch)
+				ch++
+			case 't':
+				sel.Tpos = append(sel.Tpos, i)
+			case 'T':
+				sel.Tpos = append(sel.Tpos, i)
+				sel.Shrt = true
+			}
+		}
+		if ch == 1 {
+			p.Caps = []int{1}
+			p.Routines = [][]c17Stmt{{c17Rep(120, c17Push(0, 0))}, {c17Rep(50, sel)}, {c17Rep(70, sel)}}
+		} else if ch > 2 {
+			p.Caps = make([]int, ch)
+			for i := range p.Caps {
+				p.Caps[i] = i % 3
+			}
+			p.Routines = [][]c17Stmt{{c17Rep(40, c17Push(0, 0))}, {c17Rep(40, c17Push(ch/2, 1000))}, {c17Rep(40, c17Push(ch-1, 2000))}, {c17Rep(50, sel)}, {c17Rep(70, sel)}}
+		} else {
+			p.Routines = [][]c17Stmt{{c17Rep(60, c17Push(0, 0))}, {c17Rep(60, c17Push(1, 1000))}, {c17Rep(50, sel)}, {c17Rep(70, sel)}}
+		}
+		cells = append(cells, &c17Case{Prog: p, Cell: "select-" + pat, Procs: []int{4}})
+	}
+	{
+		p := &c17Prog{Family: "chan", Shape: "range-close", Caps: []int{3}, NoModel: true}
+		p.Routines = [][]c17Stmt{{c17Rep(150, c17Push(0, 0)), {Kind: "close", Ch: 0}}, {{Kind: "rangeall", Ch: 0}}, {{Kind: "rangeall", Ch: 0}}}
+		cells = append(cells, &c17Case{Prog: p, Cell: "range-close", Procs: []int{4}})
 	}
 	for _, cp := range []int{0, 1, 8} {
 		p := &c17Prog{Family: "chan", Shape: "fan", Caps: []int{cp}}
@@ -1557,7 +1898,11 @@ func c17Generate(c *lib.Ctx) []*c17Case {
 		if listedLet {
 			kinds = kinds[:4]
 		}
-		switch rng.Intn(10) {
+		switch rng.Intn(13) {
+		case 10, 11:
+			p = c17GenSelect(rng, ops)
+		case 12:
+			p = c17GenRangeClose(rng, ops)
 		case 0, 1:
 			p = c17GenFan(rng, ops, false)
 		case 2:
@@ -1643,14 +1988,18 @@ func c17RunCase(c *lib.Ctx, cs *c17Case, bin string, procs int, yieldSeed uint64
 				seq[[2]int64{e.A[0], e.A[1]}] = c17ValString(e)
 			}
 		}
-	} else if !p.Shared && !p.Defun && !p.Burst {
+	} else if !p.Shared && !p.Defun && !p.Burst && !p.NoModel {
 		model = c17ParseModel(c.Model([]string{p.modelRequest(yieldSeed)})[0])
 		if model["q"] != "1" || model["guarded"] != "1" || model["distinct"] != "1" || model["fifo"] != "pass" || model["mutex"] != "pass" || model["counter"] != "pass" {
 			fmt.Fprintf(os.Stderr, "c17: generated program rejected by the model (harness bug): %v\n%s\n", model, c17Clip(p.modelRequest(yieldSeed), 2000))
 			os.Exit(2)
 		}
 	}
-	run := c17Exec(bin, procs, p.source(false), yieldSeed, 30, 6*time.Minute, cs.Race)
+	deadline := 2 * time.Minute
+	if cs.Race || p.Burst {
+		deadline = 6 * time.Minute
+	}
+	run := c17Exec(bin, procs, p.source(false), yieldSeed, 30, deadline, cs.Race)
 	return c17CheckRun(c, cs, run, model, seq)
 }
 
